@@ -61,7 +61,7 @@ func init() {
 		es, rs := selectSet(engSess.Selects()), selectSet(refSess.Selects())
 		// An evaluation error may stop either engine before all selects were issued.
 		if res.Err == nil && (len(setDiff(es, rs)) > 0 || len(setDiff(rs, es)) > 0) {
-			if id := kf.Match(c); id != "" {
+			if id := kf.MatchAfterFailure(c); id != "" {
 				return core.Verdict{Status: "known", Known: id, Features: feats}
 			}
 		}
@@ -75,7 +75,7 @@ func init() {
 		}
 
 		// Oracle B: the hinted range is sufficient, with any optimizer set.
-		tol := oracle.DefaultTol(Scale(c.Series))
+		tol := TolOf(c)
 		for _, opt := range []string{"none", "default", "all"} {
 			plain := st.Session()
 			plain.Shuffle = c.Shuffle
@@ -93,7 +93,7 @@ func init() {
 				}
 				kc := *c
 				kc.Prop = "C16"
-				if id := kf.Match(&kc); id != "" {
+				if id := kf.MatchAfterFailure(&kc); id != "" {
 					return core.Verdict{Status: "known", Known: id, Features: feats}
 				}
 				return core.Verdict{Status: "violation", Features: feats, Detail: fmt.Sprintf("%soptimizers=%s: result changes when the storage omits samples outside [hints.Start, hints.End]: %s\ntrimmed: %s\nfull:    %s\nselects: %v\n", hdr, opt, d, cut, full, setDiff(selectSet(trim.Selects()), map[string]bool{}))}
